@@ -98,12 +98,14 @@ P("C26", [("K4", None), ("V0", None)],
   "Assumed: every TyData comes from intern_ty; rigid AssociatedType/OpaqueType count as applications; STILL_FURTHER_SPECIALIZABLE masked out.",
   "contract-based verification: Kani harness contracts per enum variant (symbolic child flags) + Verus induction lemma")
 
-P("C16", [("K8", None), ("K1", r"^k1_(c_bv_shifted_in_from|c_db_shifted_in_from|l_universe)"), ("V21", None)],
+P("C16", [("K8", None), ("K1", r"^k1_(c_bv_shifted_in_from|c_db_shifted_in_from|l_universe)"), ("V21", None), ("V30", None)],
   "model_checking",
   "Partial (leaf rules of the first sentence + the second sentence). Verus proves on the verbatim text of the Canonicalizer's leaf methods that an unbound unknown of any kind is replaced by "
   "the innermost bound variable (seen from under the binders already entered) whose index is the position of its UNION-FIND ROOT in free_vars - reused when the class was met before, appended with the "
   "unknown's kind at its first occurrence - so unified unknowns share one index and numbering follows first occurrence; that placeholders are kept and their universe is folded into max_universe; that "
-  "free_vars only ever grows and the union-find classes are not modified (unbounded; Canonicalizer::add's own contract is assumed). Kani on the real UniverseMap code proves, invariant-style, that `new` establishes and `add` preserves a strictly increasing, rooted universe "
+  "free_vars only ever grows and the union-find classes are not modified (unbounded; Canonicalizer::add's own contract is assumed); and on the verbatim text of the two universe-map folders that EVERY kind of "
+  "placeholder - type, lifetime, constant - has its universe sent through map_universe_to_canonical resp. map_universe_from_canonical with its index kept (V30; refuted for constants on the pinned tree: genuine defect, "
+  "repaired by /repo commit 80b6cff, see known_findings.json). Kani on the real UniverseMap code proves, invariant-style, that `new` establishes and `add` preserves a strictly increasing, rooted universe "
   "vector, and that for EVERY such vector universe compression is order preserving, injective, invertible below the number of universes and maps out-of-range canonical universes "
   "strictly above every universe of the query (universe values fully symbolic); plus the index shift applied to the fresh bound variable (K1). BOUNDED in the vector length (<= 3).",
   "Not reached: the body of Canonicalizer::add (iterator+closure code outside Verus; in Kani the Clone glue of GenericArg reached through ena makes CBMC time out), into_binders, "
@@ -170,11 +172,11 @@ P("C01", [("K12", None), ("V1", None), ("V3", None), ("V18", None), ("V23", None
   "(no function of chalk has the logical meaning as an argument or view; logic.rs is out of reach of both tools).",
   "contract-based verification: Kani harness contract over enumerated streams + Verus on extracted text")
 
-P("C28", [("V5", None), ("K12", r"_ans"), ("V1", None), ("K8", r"laws"), ("V8", None)],
+P("C28", [("V5", None), ("K12", r"_ans"), ("V1", None), ("K8", r"laws"), ("V8", None), ("V30", None)],
   "model_checking",
   "Partial: Verus proves the SLG stream's CompleteAnswer copies binders, substitution and constraints of the table's answer unchanged; Kani shows make_solution's Unique payload is that "
   "answer unchanged; Verus shows into_guidance / definite_subst / constrained_subst keep the binders with the substitution; Kani shows map_universe_from_canonical sends every canonical "
-  "universe of the query back to one of the query's own universes; Verus (V8) shows every unknown captured in the value of a variable is moved into a universe that variable can name "
+  "universe of the query back to one of the query's own universes, and Verus (V30) that the folder applying that map does so for placeholders of every kind; Verus (V8) shows every unknown captured in the value of a variable is moved into a universe that variable can name "
   "(so a solution mentions no universe the query cannot name). BOUNDED where Kani is used.",
   "Not reached: arity/kind agreement of the substitution with the query's binders (established inside resolution and canonicalisation), Fulfill::solve.",
   "contract-based verification: Verus on extracted text + Kani harness contracts")
